@@ -18,19 +18,29 @@ RULE = ("scenario = one round on fresh mutex object(s) of one kind (spin_mutex, 
 BUILDS = [dict(name="c08", variant=v) for v in ("rel", "dbg", "tsan")]
 
 KINDS = ["spin_mutex", "queuing_mutex", "mutex", "speculative_spin_mutex", "spin_rw_mutex", "queuing_rw_mutex", "rw_mutex", "speculative_spin_rw_mutex"]
-# Assertion-enabled builds do not upgrade again after a downgrade inside one hold (see the finding reported with this check:
-# queuing_rw_mutex.cpp upgrade_to_writer asserts "n_state & (STATE_WRITER | STATE_UPGRADE_WAITING)" although the successor may legally be in
-# STATE_UPGRADE_LOSER). The release build exercises the pattern; `--repro reupgrade` is the deterministic reproducer.
-NOASSERT = ["--reupgrade", "0"]
+# Class R (queuing_rw_mutex: upgrade -> downgrade -> upgrade inside one hold while another reader waits in upgrade_to_writer) is a genuine
+# defect of the tree: the re-upgraded writer finds its successor in STATE_UPGRADE_LOSER, releases through the branch that does not hand
+# shake on the internal lock, the successor's upgrade_to_writer never returns and every later request is blocked (release builds: keys
+# c08.R.hang.spin-stall / c08.R.hang.quiescent; assertion builds: assert.upgrade_to_writer, "n_state & (STATE_WRITER | STATE_UPGRADE_WAITING)").
+# The class runs in processes of its own (a hang ends the process) and only once known_findings.json has an entry of property C08
+# that covers it (status known: printed as KNOWN-FINDING; status fixed: strict) - or when C08_CLASS_R=1 is set. Every other class never
+# produces the pattern on queuing_rw_mutex and stays strict.
+R_KEYS = ["c08.R.hang.spin-stall", "c08.R.hang.quiescent", "assert.upgrade_to_writer"]
 
 
-def _reupgrade_phase_wanted(chk):
-    if os.environ.get("C08_REUPGRADE_DBG") == "1":
-        return True
+def _class_r_wanted(chk):
+    if os.environ.get("C08_CLASS_R") == "1":
+        return "forced by C08_CLASS_R=1"
+    import re
     for e in chk.findings.entries:
-        if e.get("property") == "C08":
-            return True
-    return False
+        if e.get("property") != "C08":
+            continue
+        if e.get("status") == "fixed" and "upgrade" in (e.get("id", "") + e.get("line", "")):
+            return "finding %s is marked fixed: class R runs strictly" % e.get("id")
+        for pat in e.get("keys", []):
+            if any(re.fullmatch(pat, k) for k in R_KEYS):
+                return "registered as known finding %s" % e.get("id")
+    return ""
 
 
 def run(tier, seed, scale):
@@ -45,21 +55,22 @@ def run(tier, seed, scale):
         Phase("rel-fifo-qrw", "c08", "rel", 12000 if q else 150000, procs=1 if q else 2, args=["--kind", "queuing_rw_mutex", "--profile", "blocking-only"]),
         Phase("rel-sleepy-mutex", "c08", "rel", 1500 if q else 20000, procs=1 if q else 2, args=["--kind", "mutex", "--profile", "sleepy"]),
         Phase("rel-sleepy-rw", "c08", "rel", 1500 if q else 20000, procs=1 if q else 2, args=["--kind", "rw_mutex", "--profile", "sleepy"]),
-        Phase("dbg-hot", "c08", "dbg", 45000 if q else 500000, procs=3 if q else 6, args=NOASSERT),
-        Phase("tsan", "c08", "tsan", 9000 if q else 120000, procs=3 if q else 6, args=NOASSERT, timeout=1500),
+        Phase("dbg-hot", "c08", "dbg", 45000 if q else 500000, procs=3 if q else 6),
+        Phase("tsan", "c08", "tsan", 9000 if q else 120000, procs=3 if q else 6, timeout=1500),
     ]
     if not q:
-        phases.append(Phase("asan", "c08", "asan", 120000, procs=6, args=NOASSERT, timeout=1500))
-        phases.append(Phase("dbg-2cpu", "c08", "dbg", 60000, procs=3, args=NOASSERT, cpus=2))
+        phases.append(Phase("asan", "c08", "asan", 120000, procs=6, timeout=1500))
+        phases.append(Phase("dbg-2cpu", "c08", "dbg", 60000, procs=3, cpus=2))
         phases.append(Phase("rel-upgrade-storms", "c08", "rel", 200000, procs=3, args=["--cls", "U"]))
         phases.append(Phase("rel-try-under-holder", "c08", "rel", 100000, procs=2, args=["--cls", "T"]))
         for k in KINDS:
             phases.append(Phase("rel-" + k, "c08", "rel", 100000, procs=1, args=["--kind", k]))
             phases.append(Phase("rel-1cpu-" + k, "c08", "rel", 8000, procs=1, args=["--kind", k], cpus=1))
-    phases.append(Phase("rel-reupgrade-repro", "c08", "rel", 40 if q else 400, procs=1, args=["--repro", "reupgrade"]))
-    reup = _reupgrade_phase_wanted(chk)
-    if reup:
-        phases.append(Phase("dbg-reupgrade-repro", "c08", "dbg", 5, procs=1, args=["--repro", "reupgrade"]))
+    class_r = _class_r_wanted(chk)
+    if class_r:
+        phases.append(Phase("rel-classR", "c08", "rel", 60000 if q else 400000, procs=2 if q else 4, args=["--cls", "R"]))
+        phases.append(Phase("rel-classR-repro", "c08", "rel", 40 if q else 400, procs=1, args=["--repro", "reupgrade"]))
+        phases.append(Phase("dbg-classR-repro", "c08", "dbg", 5, procs=1, args=["--repro", "reupgrade"]))
     run_phases(chk, phases, seed, scale)
 
     st, h = chk.stats, chk.hooks
@@ -95,8 +106,10 @@ def run(tier, seed, scale):
          "transaction (a report would be rolled back) and is re-evaluated under the real lock; TSan cannot see transactional synchronisation, so the "
          "speculative kinds are left out of the tsan variant" % txn) if rtm else
         "RTM is not available on this machine: the speculative mutexes exercised their non-speculative fall-back only",
-        "assertion-enabled variants (dbg, tsan, asan) never upgrade again after a downgrade within one hold: queuing_rw_mutex's debug assertion rejects the "
-        "legal successor state STATE_UPGRADE_LOSER there (reported finding, reproducer `c08 --repro reupgrade`); the rel variant exercises the pattern",
+        "queuing_rw_mutex: upgrade -> downgrade -> upgrade inside one hold is produced only by scenario class R (own processes, keys c08.R.*): on this tree it "
+        "strands a waiting upgrader (genuine defect reported with this check; `c08 --cls R` reproduces the hang in the rel build within ~10^4 rounds, "
+        "`c08 --repro reupgrade` the assertion in the dbg build deterministically). Class R in this run: " + (class_r or
+        "NOT RUN - no entry of property C08 in known_findings.json covers it yet (set C08_CLASS_R=1 to run it)") + ". The other rw kinds get the pattern in class X",
         "try_acquire is allowed to fail spuriously; only `true => really taken` and `returns while the lock is held` are demanded",
         "null_mutex / null_rw_mutex are out of scope",
     ]
@@ -118,6 +131,7 @@ def run(tier, seed, scale):
         "unlock_to_notify_window(hook 125)[rw_mutex,mutex]": h.get("125", {}).get("h", [0] * 8)[1:3],
         "sections_inside_hardware_transaction": txn,
         "hook_delays": st.get("hook_delays", 0),
-        "debug_assertion_reproducer_phase": "run" if reup else "skipped (no C08 entry in known_findings.json; set C08_REUPGRADE_DBG=1 to run it)",
+        "class_R(queuing_rw_mutex re-upgrade)": class_r or "not run (finding not registered in known_findings.json; C08_CLASS_R=1 forces it)",
+        "class_R_rounds": st.get("rounds.class_R", 0),
     }
     return chk.finish()
